@@ -77,6 +77,8 @@ def step (d : DSt) (line : String) : DSt × String :=
   match words line with
   | ["case", _, mode] =>
     ({ d with mode := mode, m := St.init, sp := Spec.init, ths := [] }, line)
+  | ["case", _, mode, _] =>
+    ({ d with mode := mode, m := St.init, sp := Spec.init, ths := [] }, line)
   | ["case", _] => ({ d with mode := "", m := St.init, sp := Spec.init, ths := [] }, line)
   | ws =>
     if d.mode == "seq" then
